@@ -39,6 +39,9 @@ func c17Secrets(seed int64, nRandom int) []c17Secret {
 			out = append(out, c17Secret{v, cl})
 		}
 	}
+	// 0 is a legitimate secret scalar for the arithmetic and multiplication entry
+	// points (not for private keys: operations that need a key skip it, see zeroOK)
+	out = append(out, c17Secret{new(big.Int), "0"})
 	add(big.NewInt(1), "1")
 	add(big.NewInt(2), "2")
 	add(big.NewInt(3), "3")
@@ -189,7 +192,8 @@ func c17Vartime() string {
 }
 
 type c17Op struct {
-	name string
+	zeroOK bool // the operation admits the secret scalar 0
+	name   string
 	// prep runs outside the traced region and returns the traced closure
 	prep func(s c17Secret, variant int) func()
 	vars int // number of public-configuration variants
@@ -223,7 +227,7 @@ func runC17(r *mon.Run) {
 	msg := []byte("trace equivalence monitor message")
 
 	ops := []c17Op{
-		{"Scalar.arith", func(s c17Secret, v int) func() {
+		{zeroOK: true, name: "Scalar.arith", prep: func(s c17Secret, v int) func() {
 			a := scalarFromBig(s.v)
 			return func() {
 				t := secp256k1.NewScalar()
@@ -243,15 +247,15 @@ func runC17(r *mon.Run) {
 				_ = a.Bytes()
 				secp256k1.NewScalarFrom(a)
 			}
-		}, 1},
-		{"Scalar.decode", func(s c17Secret, v int) func() {
+		}, vars: 1},
+		{zeroOK: true, name: "Scalar.decode", prep: func(s c17Secret, v int) func() {
 			arr := arr32(s.v)
 			return func() {
 				_, _ = secp256k1.NewScalarFromCanonicalBytes(arr)
 				_, _ = secp256k1.NewScalarFromBytes(arr)
 			}
-		}, 1},
-		{"field.arith", func(s c17Secret, v int) func() {
+		}, vars: 1},
+		{zeroOK: true, name: "field.arith", prep: func(s c17Secret, v int) func() {
 			a := feFromBig(oracle.Mod(s.v, bigP))
 			return func() {
 				t := hk.NewFE()
@@ -271,8 +275,8 @@ func runC17(r *mon.Run) {
 				_ = a.IsOdd()
 				_ = a.Bytes()
 			}
-		}, 1},
-		{"field.decode", func(s c17Secret, v int) func() {
+		}, vars: 1},
+		{zeroOK: true, name: "field.decode", prep: func(s c17Secret, v int) func() {
 			arr := arr32(oracle.Mod(s.v, bigP))
 			wide := append(b32(s.v), b32(oracle.MulM(s.v, s.v, n))[:16]...)
 			return func() {
@@ -280,25 +284,33 @@ func runC17(r *mon.Run) {
 				hk.NewFE().SetBytes(arr)
 				hk.NewFE().SetWideBytes(wide)
 			}
-		}, 1},
-		{"ScalarMult", func(s c17Secret, v int) func() {
+		}, vars: 1},
+		{zeroOK: true, name: "ScalarMult", prep: func(s c17Secret, v int) func() {
 			a, P := scalarFromBig(s.v), pubPoint(v)
 			return func() { new(Point).ScalarMult(a, P) }
-		}, 3},
-		{"ScalarBaseMult", func(s c17Secret, v int) func() {
+		}, vars: 3},
+		{zeroOK: true, name: "ScalarBaseMult", prep: func(s c17Secret, v int) func() {
 			a := scalarFromBig(s.v)
 			return func() { new(Point).ScalarBaseMult(a) }
-		}, 1},
-		{"MultiScalarMult", func(s c17Secret, v int) func() {
+		}, vars: 1},
+		{zeroOK: true, name: "MultiScalarMult", prep: func(s c17Secret, v int) func() {
 			l := []int{2, 3, 8}[v%3]
 			ss, ps := make([]*Scalar, l), make([]*Point, l)
 			for i := range ss {
 				ss[i] = scalarFromBig(oracle.Mod(new(big.Int).Add(oracle.MulM(s.v, big.NewInt(int64(2*i+1)), n), big.NewInt(int64(i))), n))
+				if v >= 3 {
+					// only entry (v-3)%l is the secret itself, the others are fixed non-zero scalars
+					if i == (v-3)%l {
+						ss[i] = scalarFromBig(s.v)
+					} else {
+						ss[i] = scalarFromBig(big.NewInt(int64(0x1234567 + i)))
+					}
+				}
 				ps[i] = pubPoint(i)
 			}
 			return func() { new(Point).MultiScalarMult(ss, ps) }
-		}, 3},
-		{"Point.ops-on-secret-point", func(s c17Secret, v int) func() {
+		}, vars: 6},
+		{name: "Point.ops-on-secret-point", prep: func(s c17Secret, v int) func() {
 			Q := new(Point).ScalarBaseMult(scalarFromBig(s.v)) // secret non-identity point in a "natural" representative
 			P := pubPoint(v)
 			return func() {
@@ -317,8 +329,8 @@ func runC17(r *mon.Run) {
 				_ = Q.UncompressedBytes()
 				_, _ = Q.XBytes()
 			}
-		}, 2},
-		{"NewPrivateKey", func(s c17Secret, v int) func() {
+		}, vars: 2},
+		{name: "NewPrivateKey", prep: func(s c17Secret, v int) func() {
 			bts := b32(s.v)
 			return func() {
 				k, _ := secec.NewPrivateKey(bts)
@@ -326,58 +338,58 @@ func runC17(r *mon.Run) {
 				_ = k.Scalar()
 				_ = k.PublicKey()
 			}
-		}, 1},
-		{"NewPrivateKeyFromScalar", func(s c17Secret, v int) func() {
+		}, vars: 1},
+		{name: "NewPrivateKeyFromScalar", prep: func(s c17Secret, v int) func() {
 			a := scalarFromBig(s.v)
 			return func() { _, _ = secec.NewPrivateKeyFromScalar(a) }
-		}, 1},
-		{"ECDH", func(s c17Secret, v int) func() {
+		}, vars: 1},
+		{name: "ECDH", prep: func(s c17Secret, v int) func() {
 			k := mustPriv(s.v)
 			return func() { _, _ = k.ECDH(peer) }
-		}, 1},
-		{"SignRaw/hedged", func(s c17Secret, v int) func() {
+		}, vars: 1},
+		{name: "SignRaw/hedged", prep: func(s c17Secret, v int) func() {
 			k := mustPriv(s.v)
 			return func() { _, _, _, _ = k.SignRaw(&fixedReader{data: entropy}, digest) }
-		}, 1},
-		{"SignRaw/rfc6979", func(s c17Secret, v int) func() {
+		}, vars: 1},
+		{name: "SignRaw/rfc6979", prep: func(s c17Secret, v int) func() {
 			k := mustPriv(s.v)
 			return func() { _, _, _, _ = k.SignRaw(secec.RFC6979SHA256(), digest) }
-		}, 1},
-		{"Sign/encodings+selfverify", func(s c17Secret, v int) func() {
+		}, vars: 1},
+		{name: "Sign/encodings+selfverify", prep: func(s c17Secret, v int) func() {
 			k := mustPriv(s.v)
 			opts := &secec.ECDSAOptions{Encoding: secec.SignatureEncoding(v % 3), SelfVerify: v >= 3}
 			return func() { _, _ = k.Sign(&fixedReader{data: entropy}, digest, opts) }
-		}, 6},
+		}, vars: 6},
 		// the per-signature nonce is a secret too: fixed key and digest, the 32 entropy
 		// bytes (hence the nonce, R and s) range over the secret set
-		{"SignRaw/secret-entropy(nonce varies)", func(s c17Secret, v int) func() {
+		{zeroOK: true, name: "SignRaw/secret-entropy(nonce varies)", prep: func(s c17Secret, v int) func() {
 			k := mustPriv(mustHexBig("00c9afa9d845ba75166b5c215767b1d6934e50c3db36e89b127b8a622b120f67"))
 			ent := b32(s.v)
 			return func() { _, _, _, _ = k.SignRaw(&fixedReader{data: ent}, digest) }
-		}, 1},
-		{"Schnorr.Sign/secret-aux(nonce varies)", func(s c17Secret, v int) func() {
+		}, vars: 1},
+		{zeroOK: true, name: "Schnorr.Sign/secret-aux(nonce varies)", prep: func(s c17Secret, v int) func() {
 			k, _ := bitcoin.NewSchnorrPrivateKey(b32(mustHexBig("00c9afa9d845ba75166b5c215767b1d6934e50c3db36e89b127b8a622b120f67")))
 			aux := b32(s.v)
 			return func() { _, _ = k.Sign(&fixedReader{data: aux}, msg, nil) }
-		}, 1},
-		{"NewSchnorrPrivateKey", func(s c17Secret, v int) func() {
+		}, vars: 1},
+		{name: "NewSchnorrPrivateKey", prep: func(s c17Secret, v int) func() {
 			bts := b32(s.v)
 			return func() { _, _ = bitcoin.NewSchnorrPrivateKey(bts) }
-		}, 1},
-		{"NewSchnorrPrivateKeyFromECDSA", func(s c17Secret, v int) func() {
+		}, vars: 1},
+		{name: "NewSchnorrPrivateKeyFromECDSA", prep: func(s c17Secret, v int) func() {
 			k := mustPriv(s.v)
 			return func() { bitcoin.NewSchnorrPrivateKeyFromECDSA(k) }
-		}, 1},
-		{"Schnorr.Sign", func(s c17Secret, v int) func() {
+		}, vars: 1},
+		{name: "Schnorr.Sign", prep: func(s c17Secret, v int) func() {
 			k, _ := bitcoin.NewSchnorrPrivateKey(b32(s.v))
 			return func() { _, _ = k.Sign(&fixedReader{data: entropy}, msg, nil) }
-		}, 1},
+		}, vars: 1},
 	}
 	if hk.HaveSecec {
-		ops = append(ops, c17Op{"sampleRandomScalar(in-range stream)", func(s c17Secret, v int) func() {
+		ops = append(ops, c17Op{name: "sampleRandomScalar(in-range stream)", prep: func(s c17Secret, v int) func() {
 			stream := b32(s.v)
 			return func() { _, _ = hk.SampleRandomScalar(&fixedReader{data: stream}) }
-		}, 1})
+		}, vars: 1})
 	}
 	for _, o := range ops {
 		r.Require("c17:op:" + o.name)
@@ -401,7 +413,14 @@ func runC17(r *mon.Run) {
 		c := cfgs[i]
 		var base c17Snap
 		fingerprints := map[string]int{}
+		first := -1
 		for si, s := range secrets {
+			if s.v.Sign() == 0 && !c.op.zeroOK {
+				continue
+			}
+			if first < 0 {
+				first = si
+			}
 			f := c.op.prep(s, c.variant)
 			secp256k1.VerifInstrReset()
 			f()
@@ -410,13 +429,13 @@ func runC17(r *mon.Run) {
 				w.Fail("c17/vartime/"+c.op.name, fmt.Sprintf("%s (variant %d) with secret class %q ran a routine documented as variable-time: %s", c.op.name, c.variant, s.class, vt), "secret", hb(s.v))
 				return
 			}
-			if si == 0 {
+			if si == first {
 				base = c17Take()
 				fingerprints[fmt.Sprint(base.idxHash, base.nonzero)]++
 				continue
 			}
 			if d := c17Diff(base); d != "" {
-				w.Fail("c17/trace/"+c.op.name, fmt.Sprintf("%s (variant %d): control flow or lookup pattern depends on the secret: %s [first secret %x (%s), this secret %x (%s)]", c.op.name, c.variant, d, secrets[0].v, secrets[0].class, s.v, s.class), "secret_a", hb(secrets[0].v), "secret_b", hb(s.v))
+				w.Fail("c17/trace/"+c.op.name, fmt.Sprintf("%s (variant %d): control flow or lookup pattern depends on the secret: %s [first secret %x (%s), this secret %x (%s)]", c.op.name, c.variant, d, secrets[first].v, secrets[first].class, s.v, s.class), "secret_a", hb(secrets[first].v), "secret_b", hb(s.v))
 				return
 			}
 		}
